@@ -1,4 +1,4 @@
-import TantivyModel.Proofs.WriterRefine
+import TantivyModel.Proofs.WriterHistory
 /-!
 # C02 — A commit publishes exactly the sequential effect of the operations before it
 
@@ -80,20 +80,85 @@ theorem C02_okRun_of_plain (s : WState α) (es : List (Event α)) (h : es.all pl
 sequence `es` of the implementation-level model — API calls interleaved in any way with the
 adversarial internal events: which worker receives which batch (`recv`), when a worker cuts its
 segment (`cut`), when the segment updater registers a finished segment (`register`), when
-`consider_merge_options` draws a stamp (`tick`), when the delete queue is flushed — such that
+`consider_merge_options` draws a stamp (`tick`), when the delete queue is flushed, **which merges
+start and end when** (`mergeStart` of any duplicate-free set of segments of one register, by the
+policy or by `IndexWriter::merge`; `mergeEnd` with its catch-up and reconciliation, sources still
+uncommitted, committed in the meantime, or gone) — such that (`okRun2`)
   * `delete_all_documents` is issued only in a clean state (`cleanState`: nothing of the current
     transaction pending and no delete issued by this writer), and
-  * no merge event occurs (`okRun`),
+  * no delete is stamped with the opstamp of the last commit while committed segments exist
+    (the F8 shape: the first operation of a re-created writer),
 the documents a fresh searcher shows are, as a multiset, exactly `(replay (history es)).committed`
 (every survivor exactly once), and the documents the next commit would publish are exactly
 `(replay (history es)).pending`.  In particular this holds after every `commit`, `rollback`,
-`abort`, reopen (every prefix of a run is a run).
+`abort`, reopen, and before and after every merge (every prefix of a run is a run).
 
-The statement at full strength (no side condition, merges included) is false in the model as in
-the code: see the five counter-example theorems below.  Merges are covered by the example runs
-and the correspondence harness only; that they are invisible when no delete of a re-created
-writer shares the commit opstamp (F8) is not proved. -/
+The statement at full strength (no side condition) is false in the model as in the code: see
+the five counter-example theorems below. -/
 theorem C02_commit_refines_replay_partial [DecidableEq α] (n : Nat) (es : List (Event α)) (s : WState α)
+    (hrun : run (WState.init n) es = some s) (hok : okRun2 (WState.init n) es) :
+    List.Perm (published s) (replay (history es)).committed
+      ∧ List.Perm (live s) (replay (history es)).pending := by
+  have := (inv_run2 (WState.init n) s SpecState.init es (inv_init n) (minv_init n) hok hrun).1
+  exact ⟨this.pub, this.pend⟩
+
+/-- the same with hypotheses that read the API history only (`okHist`: a scan with three flags —
+operations pending in the transaction, a delete issued by this writer, nothing stamped since the
+writer was re-created): `delete_all_documents` only right after a commit / rollback of a writer
+that issued no delete, and the first operation after `rollback` is not a delete (nor a batch
+starting with one).  `okRun2_of_okHist` shows that these imply the state-level hypotheses at every
+step of every run with that history. -/
+theorem C02_commit_refines_replay_history [DecidableEq α] (n : Nat) (es : List (Event α)) (s : WState α)
+    (hrun : run (WState.init n) es = some s) (hh : okHist HFlags.init (history es)) :
+    List.Perm (published s) (replay (history es)).committed :=
+  (C02_commit_refines_replay_partial n es s hrun
+    (okRun2_of_okHist (WState.init n) SpecState.init HFlags.init es (inv_init n) (minv_init n) (flag_init n) hh)).1
+
+/-- **merges are invisible**: under the same hypotheses no internal event — in particular no
+`mergeStart` / `mergeEnd` — changes what a fresh searcher shows -/
+theorem C02_merges_invisible [DecidableEq α] (n : Nat) (es : List (Event α)) (e : Event α) (s s' : WState α) (r : Nat)
+    (hrun : run (WState.init n) es = some s) (hstep : step s e = some (s', r)) (hint : e.toOp = none)
+    (hok : okRun2 (WState.init n) (es ++ [e])) : List.Perm (published s') (published s) := by
+  have hrun' : run (WState.init n) (es ++ [e]) = some s' := by
+    have gen : ∀ (s0 : WState α) (l : List (Event α)), run s0 l = some s → run s0 (l ++ [e]) = some s' := by
+      intro s0 l
+      induction l generalizing s0 with
+      | nil => intro h; simp only [run, Option.some.injEq] at h; subst h; simp [run, hstep]
+      | cons a l ih =>
+        intro h
+        simp only [run, List.cons_append] at h ⊢
+        split at h
+        · rename_i s1 r1 hs1; exact ih s1 h
+        · cases h
+    exact gen _ es hrun
+  have hok' : okRun2 (WState.init n) es := by
+    have gen : ∀ (s0 : WState α) (l : List (Event α)), okRun2 s0 (l ++ [e]) → okRun2 s0 l := by
+      intro s0 l
+      induction l generalizing s0 with
+      | nil => intro _; trivial
+      | cons a l ih => intro h; exact ⟨h.1, fun s1 r1 hs => ih s1 (h.2 s1 r1 hs)⟩
+    exact gen _ es hok
+  have h1 := (C02_commit_refines_replay_partial n (es ++ [e]) s' hrun' hok).1
+  have h2 := (C02_commit_refines_replay_partial n es s hrun hok').1
+  have hh : history (es ++ [e]) = history es := by
+    simp [history, List.filterMap_append, hint]
+  rw [hh] at h1
+  exact h1.trans h2.symm
+
+/-- **segment ids are unique and fresh**: in every such run the ids of all segments in the system
+(under construction, finished, registered, results of merges in flight) are pairwise distinct and
+smaller than the next id; no merge in flight names a segment that is not registered yet -/
+theorem C02_segment_ids_fresh [DecidableEq α] (n : Nat) (es : List (Event α)) (s : WState α)
+    (hrun : run (WState.init n) es = some s) (hok : okRun2 (WState.init n) es) :
+    (allIds s).Nodup ∧ (∀ i ∈ allIds s, i < s.nextId)
+      ∧ (∀ m ∈ s.merges, ∀ i ∈ m.ids, i < s.nextId ∧ i ∉ pipeIds s) := by
+  have := (inv_run2 (WState.init n) s SpecState.init es (inv_init n) (minv_init n) hok hrun).2
+  exact ⟨this.nodup, this.idLt, fun m hm i hi => ⟨this.srcLt m hm i hi, this.srcFresh m hm i hi⟩⟩
+
+/-- runs without `delete_all_documents` and merges satisfy the hypotheses whenever no delete is
+the first operation after a rollback; kept from the first version: runs with no merge at all and
+`okRun` -/
+theorem C02_commit_refines_replay_nomerge [DecidableEq α] (n : Nat) (es : List (Event α)) (s : WState α)
     (hrun : run (WState.init n) es = some s) (hok : okRun (WState.init n) es) :
     List.Perm (published s) (replay (history es)).committed
       ∧ List.Perm (live s) (replay (history es)).pending := by
@@ -104,7 +169,7 @@ theorem C02_commit_refines_replay_partial [DecidableEq α] (n : Nat) (es : List 
 theorem C02_commit_refines_replay_plain [DecidableEq α] (n : Nat) (es : List (Event α)) (s : WState α)
     (hrun : run (WState.init n) es = some s) (hplain : es.all plainEvent = true) :
     List.Perm (published s) (replay (history es)).committed :=
-  (C02_commit_refines_replay_partial n es s hrun (C02_okRun_of_plain _ es hplain)).1
+  (C02_commit_refines_replay_nomerge n es s hrun (C02_okRun_of_plain _ es hplain)).1
 
 /-- the sound core (one logical segment, per-document opstamps, the delete queue, the rule of
 `compute_deleted_bitset` applied at commit): for **every** history, with stamps drawn by
@@ -140,11 +205,11 @@ opstamp and the payload are what `meta.json` holds afterwards.  (`commit_opstamp
 that value: `C02_commit_opstamp_counterexample`.) -/
 theorem C02_opstamp_monotone_partial [DecidableEq α] (n : Nat) (es : List (Event α)) (s s' : WState α)
     (p : Option Nat) (o : Nat)
-    (hrun : run (WState.init n) es = some s) (hok : okRun (WState.init n) es)
+    (hrun : run (WState.init n) es = some s) (hok : okRun2 (WState.init n) es)
     (hc : step s (.commit p) = some (s', o)) :
     (∀ q ∈ allPairs s, q.2 < o) ∧ (∀ del ∈ s.log, del.op < o)
       ∧ s'.metas.opstamp = o ∧ s'.metas.payload = p ∧ s'.stamper = o + 1 := by
-  have hinv := inv_run (WState.init n) s SpecState.init es (inv_init n) hok hrun
+  have hinv := (inv_run2 (WState.init n) s SpecState.init es (inv_init n) (minv_init n) hok hrun).1
   simp only [step] at hc
   split at hc
   · simp only [Option.some.injEq, Prod.mk.injEq] at hc
@@ -294,6 +359,19 @@ example :
        .batch [.add 4, .del (fun d => d == 4 || d == 5), .add 5], .register, .recv 0, .cut 0, .cut 2,
        .register, .register, .commit (some 9), .add 6, .rollback]
     es.all plainEvent = true ∧ (run (WState.init 3) es).map published = some [1, 5, 3] := by decide
+-- the history-level hypotheses hold on a history with a policy merge, a rollback followed by an
+-- add, and a clean delete_all_documents; they fail on the F8 shape
+example : okHist HFlags.init (history ([.add 1, .recv 0, .cut 0, .register, .add 2, .recv 0, .cut 0, .register,
+    .mergeStart [0, 1] true, .commit none, .mergeEnd 0, .rollback, .deleteAll, .add 3] : List (Event Nat))) := by
+  show okHist HFlags.init [Op.add 1, Op.add 2, Op.commit none, Op.rollback, Op.deleteAll, Op.add 3]
+  simp [okHist, okOp, hstepOp, HFlags.init]
+example : ¬ okHist HFlags.init (history ([.add 7, .commit none, .rollback, .del (fun d => d == 7)] : List (Event Nat))) := by
+  show ¬ okHist HFlags.init [Op.add 7, Op.commit none, Op.rollback, Op.del (fun d => d == 7)]
+  simp [okHist, okOp, hstepOp, HFlags.init]
+example :
+    (run (WState.init 1) ([.add 1, .recv 0, .cut 0, .register, .add 2, .recv 0, .cut 0, .register,
+      .mergeStart [0, 1] true, .commit none, .mergeEnd 0, .rollback, .deleteAll, .add 3] : List (Event Nat))).map
+      (fun s => (published s, s.merges.length, s.committed.length)) = some ([1, 2], 0, 0) := by decide
 example : cleanState (WState.init 2 : WState Nat) := by
   refine ⟨rfl, rfl, rfl, rfl, ?_⟩
   intro w hw
